@@ -145,23 +145,23 @@ def check_uci(ctx, f, L):
     MV = ("param", "mv")
     mfrom, mto = ("field", MV, "from"), ("field", MV, "to")
     seen = set()
-    maps = {}
-    for k in f.bodies:
-        if k.startswith(U + "display_uci_move::{closure") and f.bodies[k].kind == "Closure":
-            cps = sym.SymExec(f, f.bodies[k]).run()
-            r = L.lift(cps[0].ret) if len(cps) == 1 else None
-            maps[k] = r
-    okmaps = all(r is not None and r[0] == "sq" and r[1][0] == "param" for r in maps.values()) and len(maps) == 2
-    ctx.check(okmaps, "uci-write:rook-squares", "the writer's castle squares are not (right's file, captured rank)", where)
     for p in ps:
         conds = [(L.lift(c[0]), c[1]) for c in p.conds]
         r = L.lift(p.ret)
         kf = [v for e, v in conds if e[0] == "bin" and e[1] == "Eq" and {e[2], e[3]} == {KING, mfrom}]
         eqs = []
         for e, v in conds:
-            if e[0] == "bin" and e[1] == "Eq" and sym.contains(e, lambda y: y[0] == "call" and y[1].endswith("::map")):
-                wing = "short" if sym.contains(e, lambda y: y[0] == "field" and y[2] == "short") else ("long" if sym.contains(e, lambda y: y[0] == "field" and y[2] == "long") else "?")
-                eqs.append((wing, bool(v)))
+            # comparisons of the (current) destination with a right's rook square (right's file, mover's back rank)
+            if e[0] == "bin" and e[1] == "Eq":
+                for wing in ("short", "long"):
+                    if right_sq(wing) in (e[2], e[3]):
+                        other = e[3] if e[2] == right_sq(wing) else e[2]
+                        if other in (mto, sqf("G"), sqf("C")):
+                            eqs.append((wing, bool(v)))
+                        else:
+                            ctx.fail("uci-write:rook-squares", "the writer compares a right's rook square with something other than the destination: %s" % sym.show(other)[:80], where)
+            elif sym.contains(e, lambda y: y[0] == "field" and y[2] in ("short", "long") and y[1] == RIGHTS) and not (e[0] == "discr" and e[1][0] == "field" and e[1][1] == RIGHTS):
+                ctx.fail("uci-write:rook-squares", "the writer's castle squares are not (right's file, mover's back rank): %s" % sym.show(e)[:120], where)
         target = None
         if r == MV:
             target = "unchanged"
@@ -317,25 +317,29 @@ def check_san_writer(ctx, f, L):
                 okm = len(cps) == 1 and cps[0].ret == sym.TRUE
             ctx.check(okm, "san-write:mate-from-no-moves", "the mate flag is not derived from generate_moves(|_| true) on the successor", where)
     ctx.floor("display_san_move paths", n, 8)
-    # castle squares: closures map right file -> sq(file, first_rank) with first_rank = relrank(0, stm)
-    cls = [k for k in f.bodies if k.startswith(name + "::{closure") and f.bodies[k].kind == "Closure" and f.bodies[k].argc == 2 and f.bodies[k].locals[2]["ty"].endswith("File")]
-    okc = len(cls) == 2
-    ranks = set()
-    for k in cls:
-        cps = sym.SymExec(f, f.bodies[k]).run()
-        r = L.lift(cps[0].ret) if len(cps) == 1 else None
-        okc = okc and r is not None and r[0] == "sq" and r[1][0] == "param"
-    # the captured rank value
-    for p in ps[:1]:
-        for e in p.events:
-            if e.kind == "call" and e.depth == 0 and e.name.endswith("::map"):
-                cl = e.args[1]
-                if cl[0] == "closure" and cl[1] in cls and cl[2] and cl[2][0][0] == "ptr":
-                    v = p.store.get(cl[2][0][1])
-                    if v is not None:
-                        ranks.add(L.lift(v))
-    ctx.check(okc and ranks == {BACK}, "san-write:castle-squares-on-back-rank",
-              "castling is detected against squares that are not (right's file, the mover's back rank): rank expression %s" % [sym.show(x)[:60] for x in ranks], where,
+    # castle squares: every use of a right's file other than the presence test is the comparison
+    # `mv.to == (right's file, mover's back rank)`; both wings must occur
+    wings = set()
+    okc = True
+    for p in ps:
+        for c in p.conds:
+            e = L.lift(c[0])
+            if not sym.contains(e, lambda y: y[0] == "field" and y[1] == RIGHTS):
+                continue
+            if e[0] == "discr" and e[1][0] == "field" and e[1][1] == RIGHTS:
+                continue
+            hit = None
+            if e[0] == "bin" and e[1] in ("Eq", "Ne"):
+                for wing in ("short", "long"):
+                    if {e[2], e[3]} == {right_sq(wing), ("field", MV, "to")}:
+                        hit = wing
+            if hit:
+                wings.add(hit)
+            else:
+                okc = False
+                bad_e = e
+    ctx.check(okc and wings == {"short", "long"}, "san-write:castle-squares-on-back-rank",
+              "castling is detected against squares that are not (right's file, the mover's back rank), or not for both wings: %s" % sorted(wings), where,
               sample={"castle squares": "rights.W.map(|f| Square::new(f, First.relative_to(stm)))"})
     # disambiguation listener
     dl = set()
